@@ -80,7 +80,7 @@ contract("gherkin.pickles.compiler.Compiler._compile_scenario",
                     and forall(len(scenario_steps(background_steps, scenario)), lambda j:
                                pickles[len(pickles) - 1]["steps"][j] == plain_pstep(
                                    scenario_steps(background_steps, scenario), j, old(self.id_generator._id_counter))),
-                    serves=["C07", "C10", "C09", "C11"]),
+                    serves=["C06", "C07", "C10", "C09", "C11"]),
              clause("content-source", lambda pickles, inherited_tags, background_steps, scenario, uri, language: same_source(
                  pickles[len(old(pickles))], plain_pickle(scenario, inherited_tags, background_steps, uri, language)),
                  serves=["C06", "C11"]),
@@ -135,7 +135,7 @@ contract("gherkin.pickles.compiler.Compiler._compile_scenario_outline",
                  len(outline_flat(len(scenario["examples"]), scenario, inherited_tags, background_steps, uri, language)),
                  lambda k: same_steps(pickles[len(old(pickles)) + k], outline_flat(
                      len(scenario["examples"]), scenario, inherited_tags, background_steps, uri, language)[k])),
-                 serves=["C07", "C09", "C10"]),
+                 serves=["C06", "C07", "C09", "C10"]),
              clause("ids-advance", lambda self: self.id_generator._id_counter >= old(self.id_generator._id_counter),
                     serves=["C11"]),
          ],
@@ -234,7 +234,7 @@ contract("gherkin.pickles.compiler.Compiler._compile_rule",
                  len(rule_flat(rule, len(rule["children"]), feature_background_steps, feature_tags + rule["tags"], uri, language)[0]),
                  lambda k: same_steps(pickles[len(old(pickles)) + k], rule_flat(
                      rule, len(rule["children"]), feature_background_steps, feature_tags + rule["tags"], uri, language)[0][k])),
-                 serves=["C07", "C09", "C10"]),
+                 serves=["C06", "C07", "C09", "C10"]),
              clause("ids-advance", lambda self: self.id_generator._id_counter >= old(self.id_generator._id_counter), serves=["C11"]),
          ],
          loops={0: loop(invariant=[
@@ -295,7 +295,7 @@ contract("gherkin.pickles.compiler.Compiler.compile",
                                   gherkin_document["uri"])[0]),
                  lambda k: same_steps(result[k], feature_flat(
                      gherkin_document["feature"], len(gherkin_document["feature"]["children"]),
-                     gherkin_document["uri"])[0][k]))), serves=["C07", "C09", "C10"]),
+                     gherkin_document["uri"])[0][k]))), serves=["C06", "C07", "C09", "C10"]),
              clause("ids-advance", lambda self: self.id_generator._id_counter >= old(self.id_generator._id_counter), serves=["C11"]),
          ],
          loops={0: loop(invariant=[
